@@ -5,7 +5,7 @@ from vlib.runner import Spec, Suite
 
 HARNESS = ("h_shared_future", ["h_shared_future.cpp"], {"extra_flags": ["-fno-access-control", "-I/verif/harness/shim"]})
 TYPES = ["int", "counted", "void"]
-PROMISE_MODES = ["pf", "ff", "gp", "ls"]
+PROMISE_MODES = ["pf", "ff", "gp", "ip", "ls"]
 ACTS = ["copy", "drop", "peek", "coro", "sync", "cb"]
 AWAITS = ("coro", "sync", "cb")
 RKINDS = ["value", "exc", "drop", "dtor"]
@@ -51,7 +51,7 @@ def gen_random(rng, count, max_handles=3, maxlen=5):
     cases = []
     for i in range(count):
         r = rng.random()
-        mode = "pf" if r < 0.3 else "ff" if r < 0.5 else "gp" if r < 0.65 else "ls" if r < 0.8 else "sv" if r < 0.9 else "se"
+        mode = "pf" if r < 0.25 else "ff" if r < 0.42 else "gp" if r < 0.54 else "ip" if r < 0.7 else "ls" if r < 0.82 else "sv" if r < 0.91 else "se"
         nh = min(max_handles, rng.choice([0, 1, 1, 2, 2, 2, 3, 3]))
         others = ["t h " + " ".join(random_prog(rng, maxlen)) for _ in range(nh)]
         if mode in PROMISE_MODES:
@@ -205,7 +205,7 @@ class SharedFutureSuite(Suite):
         hdr = case["lines"][0].split()
         mode = hdr[4]
         if i["crash"]:
-            if mode in ("gp", "ls") and not i["ops"]:
+            if mode in ("gp", "ls", "ip") and not i["ops"]:
                 return ["late-init: a default-constructed shared_future could not be initialised (%s)" % i["crash"]]
             return ["memory: the implementation crashed (use after free / double free / null dereference: %s)" % i["crash"]]
         if i["assert"]:
@@ -253,7 +253,7 @@ class SharedFutureSuite(Suite):
             rk = [l.split()[2] for l in case["lines"][1:] if l.split()[:2] == ["t", "r"]][0]
             if rk != "dtor" and i["ret"] != ["1"]:
                 msgs.append("result: the promise call returned %s" % (i["ret"],))
-        if mode == "gp" and i["default"] != "default ready=0 value=notready":
+        if mode in ("gp", "ip") and i["default"] != "default ready=0 value=notready":
             msgs.append("late-init: default-constructed object reported `%s`" % i["default"])
         if mode in ("sv", "se"):
             want = "factory ready=1 " + exp + (" same=1" if mode == "sv" and hdr[3] != "void" else "")
